@@ -82,6 +82,7 @@ def run(ctx, rep):
     rep.rule('R-C04-5', 'status reports bad from info_get_bad of every position below blockmax', 1)
     rep.rule('R-C04-6', 'blockcmp compares the zero padding beyond pos_size', 1)
 
+    memhash_pairing(P, rep, 'R-C04-1p')
     # ---- scrub
     L = StripeLoop(P, 'state_scrub_process')
     f = L.f
@@ -323,3 +324,32 @@ def run(ctx, rep):
     mc = list(b.calls('memcmp'))
     pad = [c2 for c2 in mc if 'pos_size' in b.expr(c2.ops[0]) and 'buffer_zero' in b.expr(c2.ops[1]) and 'block_size' in b.expr(c2.ops[2]) and 'pos_size' in b.expr(c2.ops[2])]
     rep.check(len(mc) == 2 and len(pad) == 1, 'R-C04-6', 'blockcmp: padding [pos_size, block_size) compared with zero', b.file, '', function='blockcmp', construct='padding')
+
+
+def memhash_pairing(P, rep, rid):
+    """every memhash call passes a matched (kind, seed) pair: (state->hash, state->hashseed) or (state->prevhash, state->prevhashseed);
+    and when both kinds are used for one decision, the previous kind is the one selected by the rehash flag"""
+    rep.rule(rid, 'every memhash call uses a matched pair (hash kind, seed of that kind); the previous pair is selected iff rehash', 20)
+    from ..guards import guards_of
+    n = 0
+    for f in P.defined():
+        if not (f.file or '').startswith('cmdline/'):
+            continue
+        for c in f.calls('memhash'):
+            k, sd = f.expr(c.ops[0]), f.expr(c.ops[1])
+            if not (k.endswith('hash') and 'hash' in sd):
+                continue
+            kk = k.split('->')[-1]; ss = sd.lstrip('&').split('->')[-1].replace('[0]', '')
+            ok = (kk, ss) in (('hash', 'hashseed'), ('prevhash', 'prevhashseed'), ('besthash', 'hashseed'))
+            det = 'memhash(%s, %s)' % (k, sd)
+            # the precomputed new-kind hash kept aside for the store-back (rehandle[]) is by design computed under rehash
+            if ok and kk in ('hash', 'prevhash') and 'rehandle' not in f.expr(c.ops[2]):
+                gs = [(a, p_) for a, p_ in guards_of(f, c) if a in ('rehash', 'arg->prevhash', 'prevhash')]
+                if gs:
+                    want = kk == 'prevhash'
+                    ok = all(p_ is want for a, p_ in gs[-1:])
+                    det += ' under %s%s' % ('' if gs[-1][1] else '!', gs[-1][0])
+            rep.check(ok, rid, '%s: %s' % (base(f.name), det), c.loc(), '', function=base(f.name), construct='memhash pair %s/%s' % (kk, ss))
+            n += 1
+            rep.analysed(f)
+    return n
